@@ -1,6 +1,7 @@
 package main
 
 import (
+	"sort"
 	"go/token"
 	"go/types"
 
@@ -192,4 +193,91 @@ func romLoad(st *State, p *PtrV) (Value, bool) {
 		}
 	}
 	return nil, false
+}
+
+
+// immutableWriters lists the repository functions that store to a field declared `immutable` or into
+// an element class declared `immutable-elems`, and whether their body is verified (own contract, or
+// inlined into a verified caller is NOT counted). The write-once discipline is an obligation only in
+// verified functions; writers outside are an assumption and are listed in the evidence.
+func immutableWriters(p *Program, specs *Specs) (unverified []string) {
+	seen := map[string]bool{}
+	var visit func(f *ssa.Function)
+	visit = func(f *ssa.Function) {
+		for _, b := range f.Blocks {
+			for _, in := range b.Instrs {
+				what := ""
+				switch x := in.(type) {
+				case *ssa.Store:
+					switch a := x.Addr.(type) {
+					case *ssa.FieldAddr:
+						if pt, ok := under(a.X.Type()).(*types.Pointer); ok {
+							if st, ok := under(pt.Elem()).(*types.Struct); ok {
+								tn := typeName(pt.Elem())
+								if ts := specs.Types[tn]; ts != nil && ts.Immutable[st.Field(a.Field).Name()] {
+									// initialisation of an object allocated in the same function is the constructor pattern
+									if _, isAlloc := a.X.(*ssa.Alloc); !isAlloc {
+										what = tn + "." + st.Field(a.Field).Name()
+									}
+								}
+							}
+						}
+					case *ssa.IndexAddr:
+						if sl, ok := under(a.X.Type()).(*types.Slice); ok {
+							if _, ok := specs.ImmutableElems["[]"+typeName(sl.Elem())]; ok {
+								what = "elements of []" + typeName(sl.Elem())
+							}
+						}
+					}
+				case *ssa.Call:
+					if bi, ok := x.Call.Value.(*ssa.Builtin); ok && bi.Name() == "append" && len(x.Call.Args) > 0 {
+						if sl, ok := under(x.Call.Args[0].Type()).(*types.Slice); ok {
+							if _, ok := specs.ImmutableElems["[]"+typeName(sl.Elem())]; ok {
+								what = "elements of []" + typeName(sl.Elem()) + " (append)"
+							}
+						}
+					}
+				}
+				if what == "" {
+					continue
+				}
+				name := specName(f)
+				sp := specs.Funcs[name]
+				if sp != nil && sp.Verify {
+					continue
+				}
+				key := name + " writes " + what
+				if !seen[key] {
+					seen[key] = true
+					unverified = append(unverified, key)
+				}
+			}
+		}
+		for _, an := range f.AnonFuncs {
+			visit(an)
+		}
+	}
+	for _, sp := range p.SSAPkgs {
+		for _, m := range sp.Members {
+			switch x := m.(type) {
+			case *ssa.Function:
+				visit(x)
+			case *ssa.Type:
+				for _, ptr := range []bool{false, true} {
+					var tt types.Type = x.Type()
+					if ptr {
+						tt = types.NewPointer(tt)
+					}
+					ms := p.SSA.MethodSets.MethodSet(tt)
+					for i := 0; i < ms.Len(); i++ {
+						if f := p.SSA.MethodValue(ms.At(i)); f != nil && f.Synthetic == "" {
+							visit(f)
+						}
+					}
+				}
+			}
+		}
+	}
+	sort.Strings(unverified)
+	return unverified
 }
